@@ -287,7 +287,7 @@ def neighbours(r, cls, s, k=3):
         nums = list(re.finditer(r"\d+", t))
         if kind == 0 and nums:
             m = r.choice(nums)
-            t = t[: m.start()] + str(int(m.group()) + 1) + t[m.end():]
+            t = t[: m.start()] + str(int(m.group()) + r.choice([1, 1, 2, 3, 9])) + t[m.end():]
         elif kind == 1 and nums:
             m = r.choice(nums)
             t = t[: m.start()] + m.group() + "0" + t[m.end():]
@@ -307,7 +307,13 @@ def neighbours(r, cls, s, k=3):
                 i = r.choice(seps)
                 t = t[:i] + r.choice(".-_+~") + t[i + 1:]
         else:
-            t = t.swapcase() if any(c.isalpha() for c in t) else t + ".1"
+            runs = list(re.finditer(r"[A-Za-z]+", t))
+            if runs:
+                m = r.choice(runs)
+                w = r.choice([str.upper, str.lower, str.capitalize, str.swapcase])(m.group())
+                t = t[: m.start()] + w + t[m.end():]
+            else:
+                t = t + ".1"
         if t == s:
             continue
         try:
@@ -329,3 +335,23 @@ def near_pool(r, cls, n, gen=None):
         if len(out) >= n:
             break
     return out[:n]
+
+
+def equal_variant_pairs(r, cls, pool, limit):
+    """pairs (v, x) where x is a single edit away from some w that is == v but spelled differently:
+    two edits apart, the first of which preserves equality"""
+    out = []
+    for v in pool:
+        if len(out) >= limit:
+            break
+        for w in neighbours(r, cls, v.string, k=4):
+            try:
+                if not (w == v) or w.string == v.string:
+                    continue
+            except Exception:
+                continue
+            for x in neighbours(r, cls, w.string, k=3):
+                out.append((v, x))
+                out.append((x, v))
+            out.append((v, w))
+    return out[:limit]
